@@ -1,6 +1,6 @@
 package main
 
-// c08p.go: C08-p / C12-l a capture without packets is never scheduled for the replay.
+// c08p.go: C08-p / C12-s a capture without packets is never scheduled for the replay.
 //
 // FromPcap replays known captures in the order of their first packet and loads the next one when the replay reaches
 // its PacketTimestampMin; `loadNextTimestamp.IsZero()` means "there is no further capture to load". A valid capture
@@ -113,5 +113,5 @@ func ruleEmptyCaptureNotScheduled(id string) func(p *Prog, r *Res) {
 func init() {
 	const expl = " (typed AST): a function of package builder that keeps a time.Time local which it assigns from a capture's PacketTimestampMin and tests with IsZero() — the zero time as 'none' — compares a capture's PacketCount with a constant in a condition: captures without packets are told apart. A valid capture file with zero packets has the zero time as its minimum; registered as a known capture at the next start it is sorted in front of all others and its minimum is read as 'nothing more to load' — all new packets are then processed before any old capture, and a stream that continues is stored as `CCCCDDDDAAAABBBB`."
 	register("C08", "C08-p"+expl, ruleEmptyCaptureNotScheduled("C08-p"))
-	register("C12", "C12-l"+expl, ruleEmptyCaptureNotScheduled("C12-l"))
+	register("C12", "C12-s"+expl, ruleEmptyCaptureNotScheduled("C12-s"))
 }
